@@ -23,10 +23,10 @@ func scenarios(tier string) []engine.Scenario {
 	thorough := tier == "thorough"
 	var scs []engine.Scenario
 	chains := []chainT{tinyChain(), mixedChain(), bigChain()}
-	seqDepth, qpDepth, terDepth, gauDepth := 4, 3, 3, 3
+	seqDepth, qpDepth, terDepth, gauDepth, crpDepth := 5, 3, 4, 4, 3
 	momentsReads, lvlDepth := 4096, 2
 	if thorough {
-		seqDepth, qpDepth, terDepth, gauDepth = 6, 5, 6, 5
+		seqDepth, qpDepth, terDepth, gauDepth, crpDepth = 6, 4, 6, 5, 5
 		momentsReads, lvlDepth = 1<<16, 3
 	}
 	for _, ch := range chains {
@@ -65,7 +65,7 @@ func scenarios(tier string) []engine.Scenario {
 		}
 	}
 	scs = append(scs, gaussianBigScenario(), gaussianReadAndAddScenario(), gaussianWideScenario())
-	scs = append(scs, prngScenario(), prngKeyBufferScenario(), prngReusedBufferScenario(), samplerReproScenario(), crpScenario(), expandScenario())
+	scs = append(scs, prngScenario(), prngKeyBufferScenario(), prngReusedBufferScenario(), samplerReproScenario(), crpScenario(), crpSequenceScenario(crpDepth), expandScenario())
 	for _, ch := range []chainT{tinyChain(), mixedChain()} {
 		scs = append(scs, constructionLevelScenario(ch, lvlDepth))
 	}
@@ -93,7 +93,7 @@ func main() {
 		ThoroughBudget: 25 * time.Minute,
 		Expect: func(tier string) []string {
 			e := []string{"uniform-refill=second-buffer", "gaussian-refill=second-buffer", "prng=reset", "prng-bitflips=32", "prng-bitflips=64",
-				"crp=0", "crp=1", "crp=2", "crp=3", "expand=levelP=-1", "expand=levelP=0", "expand=levelP=1",
+				"crp=0", "crp=1", "crp=2", "crp=3", "expand=levelP=-1", "expand=levelP=0", "expand=levelP=1", "expand=levelP=2", "expand-params=0", "expand-params=1", "expand-params=2", "expand-relin=true", "expand-relin=false",
 				"gaussian-readandadd=montgomery=false", "gaussian-wide=sign=1", "gaussian-big=kind=0", "gaussian-big=kind=1",
 				"ternary-atlevel=level=2/max=2", "ternary-readandadd=P=0.50/H=0", "ternary-readandadd=P=0.67/H=0", "ternary-readandadd=P=0.00/H=16"}
 			for _, o := range uniOps {
@@ -107,6 +107,9 @@ func main() {
 			}
 			for _, o := range terOps {
 				e = append(e, "ternary-op="+o)
+			}
+			for _, o := range crpKinds {
+				e = append(e, "crp-sequence="+o)
 			}
 			for _, o := range gauViewOps {
 				e = append(e, "gaussian-montgomery-view-op="+o)
